@@ -350,13 +350,13 @@ Theorem C19_generated_destructor_is_model_push :
   dpcs s t = Idle -> status s r = Detached -> (exists k, (k < fuel)%nat /\ sp k = false) ->
   exists s' m',
     run s [DBegin t r; DLoad t; DLink t; DCas t false] = Some s' /\
-    Gen_DataRow.destroy sp fuel (addr r) hd cl (mem_of s) = Ok (tt, m') /\
+    Gen_DataRow.destroy sp fuel (addr r) hd cl (mem_of s) 5%Z = Ok (tt, m', 5%Z) /\
     forall a, m' a = mem_of s' a.
 Proof. exact generated_destructor_is_model_push. Qed.
 Print Assumptions C19_generated_destructor_is_model_push.
 
 Theorem C19_generated_destructor_of_empty_row_is_noop :
-  forall sp fuel fl cl mem, Gen_DataRow.destroy sp fuel 0%Z fl cl mem = Ok (tt, mem).
+  forall sp fuel fl cl mem mo, Gen_DataRow.destroy sp fuel 0%Z fl cl mem mo = Ok (tt, mem, mo).
 Proof. exact generated_destructor_of_empty_row. Qed.
 Print Assumptions C19_generated_destructor_of_empty_row_is_noop.
 
@@ -367,11 +367,24 @@ Theorem C19_generated_drain_is_model_drain :
   inv s -> own s = OIdle -> (length (shared s) < fuel)%nat ->
   exists s' m',
     run s (OExchange :: walk_labels (length (shared s))) = Some s' /\
-    Gen_FreeListOwner.pvDeallocateFreeRaws hd fuel (mem_of s) pool = Ok (tt, m', log_of pool (shared s)) /\
+    Gen_FreeListOwner.pvDeallocateFreeRaws hd fuel (mem_of s) pool 5%Z = Ok (tt, m', log_of pool (shared s), 5%Z) /\
     m' hd = 0%Z /\ head s' = None /\ own s' = OIdle /\
     reclaimed s' = rev (map (fun r => (r, gen s r)) (shared s)) ++ reclaimed s.
 Proof. exact generated_drain_is_model_drain. Qed.
 Print Assumptions C19_generated_drain_is_model_drain.
+
+(* every atomic operation of the translated destructor and drain uses memory_order_seq_cst: explicit std::memory_order arguments are
+   TRANSLATED (enumerator value, the generated function returns the minimum order used); seeded change C19-b (relaxed exchange) breaks this *)
+Theorem C19_generated_destructor_orders_are_seq_cst :
+  forall sp fuel raw mem m' mo, Gen_DataRow.destroy_loop0 sp fuel hd raw mem 5%Z = Ok (m', mo) -> mo = 5%Z.
+Proof. exact generated_destructor_orders_are_seq_cst. Qed.
+Print Assumptions C19_generated_destructor_orders_are_seq_cst.
+
+Theorem C19_generated_drain_order_is_seq_cst :
+  forall fuel mem pool m' pool' mo,
+  Gen_FreeListOwner.pvDeallocateFreeRaws hd fuel mem pool 5%Z = Ok (tt, m', pool', mo) -> mo = 5%Z.
+Proof. exact generated_drain_order_is_seq_cst. Qed.
+Print Assumptions C19_generated_drain_order_is_seq_cst.
 
 (* pvAllocateRaw: its test is the exact machine's XCheck; it allocates without draining iff the head is null *)
 Theorem C19_generated_check_is_model_check :
@@ -381,14 +394,14 @@ Print Assumptions C19_generated_check_is_model_check.
 
 Theorem C19_generated_allocate_skips_drain_iff_head_null :
   forall pa fuel s pool, head s = None ->
-  Gen_FreeListOwner.pvAllocateRaw hd pa fuel (mem_of s) pool = Ok (pa pool, mem_of s, pool).
+  Gen_FreeListOwner.pvAllocateRaw hd pa fuel (mem_of s) pool 5%Z = Ok (pa pool, mem_of s, pool, 5%Z).
 Proof. exact generated_allocate_skips_drain_iff_head_null. Qed.
 Print Assumptions C19_generated_allocate_skips_drain_iff_head_null.
 
 Theorem C19_generated_allocate_drains_when_head_nonnull :
   forall pa fuel s pool, inv s -> own s = OIdle -> head s <> None -> (length (shared s) < fuel)%nat ->
-  exists m', Gen_FreeListOwner.pvAllocateRaw hd pa fuel (mem_of s) pool
-             = Ok (pa (log_of pool (shared s)), m', log_of pool (shared s)) /\ m' hd = 0%Z.
+  exists m', Gen_FreeListOwner.pvAllocateRaw hd pa fuel (mem_of s) pool 5%Z
+             = Ok (pa (log_of pool (shared s)), m', log_of pool (shared s), 5%Z) /\ m' hd = 0%Z.
 Proof. exact generated_allocate_drains_when_head_nonnull. Qed.
 Print Assumptions C19_generated_allocate_drains_when_head_nonnull.
 
@@ -426,13 +439,14 @@ Theorem C19_pool_assumption_satisfiable : forall out, ~ In (next_block out) out.
 Proof. exact next_block_fresh. Qed.
 Print Assumptions C19_pool_assumption_satisfiable.
 
-(* ---- A_size discharged: for EVERY column list (total row size below 2^48), every pool alignment and block count, the block that
-   DataTable::pvCreateRawMemPool + MemPoolParams' CorrectBlockSize (both regenerated from the headers) give the raw pool holds the
-   row AND the 8-byte link word ~DataRow writes *)
+(* ---- A_size discharged: for EVERY column list (total row size `ts cl` below 2^48, alignment `al cl`), and every block count, the WHOLE
+   DataTable::pvCreateRawMemPool (regenerated: size = max(totalSize, 8), alignment = the column list's) followed by MemPoolParams'
+   CorrectBlockSize gives the raw pool a block that holds the row AND the 8-byte link word ~DataRow writes *)
 Theorem C19_raw_block_holds_link_word :
-  forall total al C, (0 <= total < 2 ^ 48)%Z -> (1 <= al <= 1024)%Z ->
-  let block := Gen_MemPoolConst.CorrectBlockSize (Gen_RawPool.pvCreateRawMemPool total) al C in
-  (8 <= block)%Z /\ (total <= block)%Z.
+  forall ts al cl C, (0 <= ts cl < 2 ^ 48)%Z -> (1 <= al cl <= 1024)%Z ->
+  let '(size, alignment, _) := Gen_RawPool.pvCreateRawMemPool ts al cl in
+  let block := Gen_MemPoolConst.CorrectBlockSize size alignment C in
+  alignment = al cl /\ (8 <= block)%Z /\ (ts cl <= block)%Z.
 Proof. exact raw_block_holds_link_word. Qed.
 Print Assumptions C19_raw_block_holds_link_word.
 
@@ -444,21 +458,21 @@ Print Assumptions C19_raw_block_without_max_refuted.
 (* ---- Interleavings with the GENERATED code as the atomic steps.  The regenerated destructor loop body is, literally (closed by
    reflexivity), load ; store of the link ; CAS, and the regenerated drain is exchange ; walk ... *)
 Theorem C19_generated_destructor_body_is_three_atomic_pieces :
-  forall sp fuel fr raw mem,
-  Gen_DataRow.destroy_loop0 sp (S fuel) fr raw mem =
+  forall sp fuel fr raw mem mo,
+  Gen_DataRow.destroy_loop0 sp (S fuel) fr raw mem mo =
     let h := g_load mem fr in
     let m1 := g_link mem h raw in
     let '(ok, _, m2) := g_cas (sp fuel) m1 fr h raw in
-    if ok then Ok m2 else Gen_DataRow.destroy_loop0 sp fuel fr raw m2.
+    if ok then Ok (m2, Z.min mo 5) else Gen_DataRow.destroy_loop0 sp fuel fr raw m2 (Z.min mo 5).
 Proof. exact destructor_body_is_three_atomic_pieces. Qed.
 Print Assumptions C19_generated_destructor_body_is_three_atomic_pieces.
 
 Theorem C19_generated_drain_is_exchange_then_walk :
-  forall crew_head fuel mem pool,
-  Gen_FreeListOwner.pvDeallocateFreeRaws crew_head fuel mem pool =
+  forall crew_head fuel mem pool mo,
+  Gen_FreeListOwner.pvDeallocateFreeRaws crew_head fuel mem pool mo =
     let '(h, m1) := g_exchange mem crew_head 0%Z in
     match Gen_FreeListOwner.pvDeallocateFreeRaws_loop0 fuel m1 h pool with
-    | Ok (_, pool') => Ok (tt, m1, pool')
+    | Ok (_, pool') => Ok (tt, m1, pool', Z.min mo 5)
     | Stuck => Stuck | Fuel => Fuel | Exn => Exn
     end.
 Proof. exact drain_is_exchange_then_walk. Qed.
